@@ -32,6 +32,7 @@
   `src_C01_full_roundtrip_total` (below) is the unconditional form: with `SrcTie.ReaderTotal` (every history of
   regenerated cursor calls on a written file returns `.ok`) the read side no longer says "if the call returns".
   The first theorems keep the earlier shape.
+  `src_C04_C05_full_roundtrip` adds the range and prefix iterators (C04, C05; `SrcTie.IterE2E`), regenerated as well.
   Partial correctness on the read side of `src_C01_full_roundtrip`, as in ReaderE2EGen.lean: opening is shown to return; for the cursor calls the
   statement is "if the call returns `.ok`, the result is the specified one" (that they do return is shown by kernel
   evaluation on a concrete written file, ReaderE2ESmoke.lean).
@@ -39,6 +40,7 @@
 import Grenad.SrcTie.WriterBuild
 import Grenad.SrcTie.ReaderE2EGen
 import Grenad.SrcTie.ReaderTotal
+import Grenad.SrcTie.IterE2E
 
 set_option linter.unusedSimpArgs false
 set_option linter.unusedVariables false
@@ -286,6 +288,71 @@ theorem src_C01_full_roundtrip_total_none (wb : Gen.WriterBuilder) (es : List En
   refine ⟨file, log, hgen, hrun, fun hfile hblocks => ?_⟩
   exact hread (by omega) hblocks (smallBlocks_none file hfile)
 
+/-! ### C04/C05: the regenerated range and prefix iterators on the bytes the regenerated writer returns -/
+
+/-- **The regenerated iterators enumerate `es` from `file`.**  For every source position, all bounds `lo hi`, every
+    prefix `p` and every fuel above the number of entries: `Reader::new`, `into_cursor`, `RangeIter::new` /
+    `RevRangeIter::new` resp. `PrefixIter::new` / `RevPrefixIter::new`, then `next` until `None` — all regenerated code,
+    over the regenerated cursor (`gstep (ie_mstep cd)`, `ie_gstep_ok`) — return exactly the entries within the bounds
+    resp. with the prefix, ascending and (reversed iterators) descending.  These are the conclusions of
+    `src_C04_range_open_e2e` and `src_C05_prefix_open_e2e`. -/
+def frt_ItersBack (cd : Codec) (es : List Entry) (file : Bytes) : Prop :=
+  ∀ (pos : Nat) (lo hi : Grenad.Bound) (p : Bytes) (fuel : Nat), fuel > es.length →
+    (∃ rdr s0 it rit, Gen.Reader.new { bytes := file, pos := pos } = .ok rdr ∧ Gen.Reader.into_cursor rdr = .ok s0 ∧
+      Gen.RangeIter.new s0 (toSrcBound lo, toSrcBound hi) = .ok it ∧
+      collectM (Gen.RangeIter.next (gstep (ie_mstep cd))) fuel it [] = .ok (Spec.range es lo hi) ∧
+      Gen.RevRangeIter.new s0 (toSrcBound lo, toSrcBound hi) = .ok rit ∧
+      collectM (Gen.RevRangeIter.next (gstep (ie_mstep cd))) fuel rit [] = .ok (Spec.range es lo hi).reverse) ∧
+    (∃ rdr s0 it rit, Gen.Reader.new { bytes := file, pos := pos } = .ok rdr ∧ Gen.Reader.into_cursor rdr = .ok s0 ∧
+      Gen.PrefixIter.new s0 p = .ok it ∧
+      collectM (Gen.PrefixIter.next (gstep (ie_mstep cd))) fuel it [] = .ok (Spec.withPrefix es p) ∧
+      Gen.RevPrefixIter.new s0 p = .ok rit ∧
+      collectM (Gen.RevPrefixIter.next (gstep (ie_mstep cd))) fuel rit [] = .ok (Spec.withPrefix es p).reverse)
+
+theorem frt_iters_of_setting {cd : Codec} {cfg : WCfg} {es : List Entry} {file : Bytes} {log : List Emitted}
+    (S : Setting cd cfg es file log) (hs : SmallBlocks cd file) : frt_ItersBack cd es file :=
+  fun pos lo hi p fuel hfuel =>
+    ⟨src_C04_range_open_e2e S hs pos lo hi fuel hfuel, src_C05_prefix_open_e2e S hs pos p fuel hfuel⟩
+
+/-- **C04/C05, regenerated writer + regenerated reader, cursor and iterators, end to end (total).**
+    Same hypotheses as `src_C01_full_roundtrip_total`; on the bytes the regenerated writer returns, the regenerated
+    range and prefix iterators, forwards and reversed, return exactly the specified entries (`frt_ItersBack`). -/
+theorem src_C04_C05_full_roundtrip (cd : Codec) (wb : Gen.WriterBuilder) (es : List Entry)
+    (hlaw : cd.Lawful) (hid : cd.id ≤ 5) (hlv : wb.index_levels ≤ 255)
+    (hiv : ∀ iv, wb.index_key_interval = some iv → 1 ≤ iv ∧ iv < 2 ^ 64)
+    (hasc : StrictAsc es) (hlens : ∀ e ∈ es, e.1.length < 2 ^ 32 ∧ e.2.length < 2 ^ 32)
+    (hcount : es.length < 2 ^ 26)
+    (hcd : ∀ b : Bytes, b.length < 2 ^ 63 → (cd.compress b).length < 2 ^ 64)
+    (hct : wb.compression_type.toNat = cd.id) :
+    ∃ file log,
+      (do let (w, _) ← Gen.WriterBuilder.build wb []
+          genWriterRun (codecFn cd) w es : M Sink) = .ok file ∧
+      W.run cd (cfgOf wb) es = .ok (file, log) ∧
+      (file.length < 2 ^ 64 → (∀ e ∈ log, e.raw.length < 2 ^ 32) → SmallBlocks cd file →
+        frt_ItersBack cd es file) := by
+  obtain ⟨file, log, hgen, hrun, -⟩ :=
+    src_C01_builder_roundtrip cd wb es hlaw hid hlv hiv hasc hlens hcount hcd hct
+  refine ⟨file, log, hgen, hrun, fun hfile hblocks hs => ?_⟩
+  exact frt_iters_of_setting
+    (frt_setting cd wb es file log hlaw hid hlv hiv hasc hlens hcount hrun hfile hblocks) hs
+
+/-- **The same without compression.** -/
+theorem src_C04_C05_full_roundtrip_none (wb : Gen.WriterBuilder) (es : List Entry)
+    (hlv : wb.index_levels ≤ 255)
+    (hiv : ∀ iv, wb.index_key_interval = some iv → 1 ≤ iv ∧ iv < 2 ^ 64)
+    (hasc : StrictAsc es) (hlens : ∀ e ∈ es, e.1.length < 2 ^ 32 ∧ e.2.length < 2 ^ 32)
+    (hcount : es.length < 2 ^ 26)
+    (hct : wb.compression_type = .none) :
+    ∃ file log,
+      (do let (w, _) ← Gen.WriterBuilder.build wb []
+          genWriterRun (codecFn Codec.none) w es : M Sink) = .ok file ∧
+      W.run Codec.none (cfgOf wb) es = .ok (file, log) ∧
+      (file.length < 2 ^ 62 → (∀ e ∈ log, e.raw.length < 2 ^ 32) → frt_ItersBack Codec.none es file) := by
+  obtain ⟨file, log, hgen, hrun, hread⟩ :=
+    src_C04_C05_full_roundtrip Codec.none wb es frt_none_lawful (by decide) hlv hiv hasc hlens hcount
+      frt_none_bounded (by rw [hct]; rfl)
+  exact ⟨file, log, hgen, hrun, fun hfile hblocks => hread (by omega) hblocks (smallBlocks_none file hfile)⟩
+
 /-! ### the hypotheses are jointly satisfiable (and the conclusion is not empty) -/
 
 namespace FrtSmoke
@@ -356,6 +423,20 @@ theorem full_roundtrip_total_instance :
   simp only [sizesOK, h2, Bool.and_eq_true, decide_eq_true_eq, List.all_eq_true] at hs
   exact ⟨file, h1, h3 hs.1.1 hs.1.2⟩
 
+/-- **C04/C05 applied** to the same instance. -/
+theorem iters_instance :
+    ∃ file,
+      (do let (w, _) ← Gen.WriterBuilder.build wbS []
+          genWriterRun (codecFn Codec.none) w exEs : M Sink) = .ok file ∧
+      frt_ItersBack Codec.none exEs file := by
+  obtain ⟨file, log, h1, h2, h3⟩ :=
+    src_C04_C05_full_roundtrip_none wbS exEs (by decide)
+      (by intro iv h; simp only [wbS, Option.some.injEq] at h; subst h; decide)
+      exEs_asc exEs_lens (by decide) rfl
+  have hs := sizesOK_true
+  simp only [sizesOK, h2, Bool.and_eq_true, decide_eq_true_eq, List.all_eq_true] at hs
+  exact ⟨file, h1, h3 hs.1.1 hs.1.2⟩
+
 /-- the former codec hypothesis was false already for `Codec.none` -/
 example : ¬ ∀ b : Bytes, (Codec.none.compress b).length < 2 ^ 64 := by
   intro h
@@ -382,4 +463,7 @@ open Grenad.SrcTie
 #print axioms src_C01_full_roundtrip_total
 #print axioms src_C01_full_roundtrip_total_none
 #print axioms FrtSmoke.full_roundtrip_total_instance
+#print axioms src_C04_C05_full_roundtrip
+#print axioms src_C04_C05_full_roundtrip_none
+#print axioms FrtSmoke.iters_instance
 end Audit
